@@ -771,7 +771,9 @@ def coverage_evidence(ctx, monitors, sources, scale="0.2"):
             ctx.note_inconclusive("coverage evidence: llvm-tools not found")
             return
         exe = cargo_build("cov", "debug", extra_rustflags="-Cinstrument-coverage", toolchain="nightly", target_subdir="cov",
-                          features=["--features", "full"])
+                          features=["--features", "full"],
+                          # instrumented build scripts would otherwise drop default_*.profraw into /repo
+                          env_extra={"LLVM_PROFILE_FILE": "/dev/null"})
         d = tempfile.mkdtemp(prefix="verif-cov-")
         try:
             for m in monitors:
